@@ -1,7 +1,7 @@
 /-
 C04 — executable model of the register cache layer of `cameleon-genapi`.
 
-What is modelled (the code as it exists after the two `fix:` commits for F-C04-1/2):
+What is modelled (the code as it exists after the `fix:` commits for F-C04-1/2/3/4):
 * `DefaultCacheStore` (`genapi/src/store.rs:493-558`): two-level map
   `nid → (address,length) → bytes` (association lists here), the `invalidators`
   multimap built by `store_invalidator(invalidator, target)` from every register's
@@ -470,7 +470,8 @@ def cachedRead (n : NodeId) (r : Reg) (a : Int) : M κ Bytes := fun s =>
 (`register_base.rs:127-150`, with the repairs of F-C04-2: `invalidate_cache_by(nid)`;
 F-C04-1: a register that is not `WriteThrough` drops its own entries; F-C04-3: a write the
 port reports as failed drops the register's own entries too — the device may have applied
-part of it). -/
+part of it; F-C04-4: the own entries under EVERY key are dropped after the port write, then a
+successful WriteThrough write caches the data under the key written). -/
 def writeAt (n : NodeId) (r : Reg) (a : Int) (buf : Bytes) : M κ Unit := do
   invBy ops n
   expectPort g r.port
@@ -479,7 +480,8 @@ def writeAt (n : NodeId) (r : Reg) (a : Int) (buf : Bytes) : M κ Unit := do
   fun s =>
     match devWrite a buf s with
     | (.ok _, s') =>
-      (if r.mode = .writeThrough then cacheData ops n a r.len buf else invOf ops n) s'
+      (if r.mode = .writeThrough then cacheData ops n a r.len buf else M.pure ())
+        { s' with cache := ops.invalidateOf s'.cache n }
     | (.err e, s') => (.err e, { s' with cache := ops.invalidateOf s'.cache n })
     | (.panic, s') => (.panic, s')
 
